@@ -462,6 +462,27 @@ class VCluster:
              before=lambda s, fn, missing: vc.log("summary", vc.cur().pid, tuple(sorted(jid(m) for m in missing)),
                                                   tuple(sorted((jid(r.name), r.return_code, r.status) for r in s._results))))
 
+        # ---- sections in which JADE mutates shared files without their lock by design (lockset audit, DESIGN 5.4)
+        def section(cls, name, tag):
+            orig = getattr(cls, name)
+            fn = getattr(orig, "__func__", orig)
+            is_cm = getattr(orig, "__self__", None) is cls
+
+            def w(first, *a, **kw):
+                inside = getattr(_tls, "pid", None) in vc.procs
+                if inside:
+                    vc.log("sect", vc.cur().pid, tag, "begin")
+                try:
+                    return fn(first, *a, **kw)
+                finally:
+                    if inside:
+                        vc.log("sect", vc.cur().pid, tag, "end")
+            patch(cls, name, classmethod(w) if is_cm else w)
+
+        section(C, "create", "create")
+        section(C, "prepare_for_resubmission", "prepare")
+        section(ra.ResultsAggregator, "clear_results_for_resubmission", "reset")
+
         def on_prepare(s, rerun, updated):
             vc.epoch += 1
             vc.log("prepare", vc.cur().pid, tuple(sorted(jid(x) for x in rerun)),
